@@ -13,8 +13,9 @@ from . import tlc
 
 
 class Failure:
-    def __init__(self, exec_id, local_line, event, prev_event):
+    def __init__(self, exec_id, local_line, event, prev_event, clause=None):
         self.exec_id, self.local_line, self.event, self.prev_event = exec_id, local_line, event, prev_event
+        self.clause = clause      # name printed by the trace spec's Clause(name, cond) operator, if it has one
 
     def __repr__(self):
         return "Failure(exec=%s line=%s event=%s)" % (self.exec_id, self.local_line, self.event[:200])
@@ -63,8 +64,10 @@ def validate(spec_dir, module, cfg, chunks, workdir, timeout=900, max_fail=6, he
                 idx = i
         eid, lines = todo[idx]
         local = rej - 1 - starts[idx]
+        cl = re.findall(r'<<"CLAUSE-FAILED", "([^"]+)", (\d+)>>', r.out)
+        clause = next((c for c, ln in cl if int(ln) == rej), None)
         failures.append(Failure(eid, local + 1, lines[local] if local < len(lines) else "",
-                                lines[local - 1] if local > 0 else ""))
+                                lines[local - 1] if local > 0 else "", clause))
         accepted += idx
         todo = todo[idx + 1:]
         if len(failures) >= max_fail:
